@@ -1,4 +1,5 @@
 import Proofs.C11
+import Proofs.Round
 import PikoModel.Generated.Facts
 /-!
 # C11 — Membership lifecycle: left, unreachable, recovered and expired nodes
@@ -378,6 +379,50 @@ example :
 /-- (h): leaving is the local node's own act and publishes the marker -/
 example : (own (leaveLocal (init "n" "a"))).left = true ∧
     ((own (leaveLocal (init "n" "a"))).entries.find leftKey).map (·.internal) = some true := by
+  decide
+
+/-! ## Whom a leaving node notifies (`Gossip.Leave`, `pkg/gossip/gossip.go`) -/
+
+/-- `Leave` pushes the left marker to at most four peers (the loop stops at `notified > 3`;
+the source comment says three), each of them a remembered remote node that is neither left nor
+unreachable and whose leave stream succeeded - in the order of the shuffle. -/
+theorem C11_leave_notifies (s : CState) (order : List NodeSt) (ok : String → Bool) :
+    (leaveNotified s order ok).length ≤ 4 ∧
+    ∀ x ∈ leaveNotified s order ok, ∃ n ∈ order, n.id = x ∧ n.id ≠ s.localId ∧ n.left = false ∧
+      n.unreachable = false ∧ ok x = true := by
+  obtain ⟨h1, _, h3⟩ := leaveLoop_spec s.localId ok order [] (by simp)
+  refine ⟨h1, fun x hx => ?_⟩
+  rcases h3 x hx with h | ⟨n, hn, hid, hel⟩
+  · cases h
+  · refine ⟨n, hn, hid, ?_⟩
+    simp only [eligible, Bool.and_eq_true, Bool.not_eq_true', decide_eq_false_iff_not,
+      Bool.or_eq_false_iff] at hel
+    exact ⟨hel.1.1, hel.1.2.1, hel.1.2.2, hid ▸ hel.2⟩
+
+/-- With at most four live peers whose stream succeeds, **every** one of them is notified
+(whatever the shuffle): they all hold the left marker when `Leave` returns, hence
+(`C11_left_on_marker`) all see the node as left at once. -/
+theorem C11_leave_notifies_all (s : CState) (order : List NodeSt) (ok : String → Bool)
+    (hfew : (order.filter (eligible s.localId ok)).length ≤ 4)
+    (n : NodeSt) (hn : n ∈ order) (hid : n.id ≠ s.localId) (hl : n.left = false) (hu : n.unreachable = false)
+    (hok : ok n.id = true) : n.id ∈ leaveNotified s order ok :=
+  leaveLoop_complete s.localId ok order [] (by simpa using hfew) n hn (by simp [eligible, hid, hl, hu, hok])
+
+/-- a gossip round never contacts a node that left unless it is also flagged unreachable -/
+theorem C11_round_skips_left (s : CState) (r₁ r₂ : Nat) (n : NodeSt) (h : n ∈ roundTargets s r₁ r₂)
+    (hl : n.left = true) : n.unreachable = true := by
+  rcases mem_roundTargets.mp h with h | h
+  · have := (mem_liveNodes.mp (pickNode_mem h)).2.2.2; rw [hl] at this; cases this
+  · exact (mem_unreachableNodes.mp (pickNode_mem h)).2.2
+
+/-- non-vacuity: six peers (one left, one unreachable, one whose stream fails): the first four
+eligible ones in shuffle order are notified and the loop stops there -/
+example :
+    let mk (id : String) (l u : Bool) : NodeSt := { id := id, addr := id, left := l, unreachable := u }
+    leaveNotified (init "n" "a")
+      [mk "a" false false, mk "n" false false, mk "b" true false, mk "c" false true, mk "d" false false,
+       mk "e" false false, mk "f" false false, mk "g" false false, mk "h" false false]
+      (fun id => id ≠ "e") = ["a", "d", "f", "g"] := by
   decide
 
 end Piko
